@@ -64,6 +64,9 @@ def main(driver, gen, names=None):
     for n in disp_names:
         d += '        "%s" => { let v = judge_schema!(%s, t); let r = schemas::%s::real(t); (v, r.ok, r.end) }\n' % (n, n, n)
     d += '        _ => panic!("unknown schema"),\n    }\n}\n'
+    d += 'pub fn run_all(name: &str, t: &Tables) -> (Vec<(&\'static str, &\'static str)>, bool, usize) {\n    match name {\n'
+    for n in disp_names: d += '        "%s" => judge_schema_all!(%s, t),\n' % (n, n)
+    d += '        _ => panic!("unknown schema"),\n    }\n}\n'
     d += 'pub fn real_obs(name: &str, t: &Tables) -> Obs {\n    match name {\n'
     for n in disp_names: d += '        "%s" => schemas::%s::real(t),\n' % (n, n)
     d += '        _ => panic!("unknown schema"),\n    }\n}\n'
